@@ -1,156 +1,291 @@
 (** C05 — Marker supply and lifecycle stay sound under every administration history.
-    Theorem statements only; the proofs are in Proofs/LifecycleProofs.v and LifecycleProofs2.v
-    about the model Marker/Lifecycle.v.
+    Theorem statements only; the proofs are in Proofs/LifecycleProofs{,2,3}.v (one denom, model
+    Marker/Lifecycle.v) and Proofs/MultiLifecycleProofs{,2}.v (the world of several markers over one
+    bank, model Marker/MultiLifecycle.v, which projects denom by denom onto the former).
 
-    Scope.  A history is any list of the model's operations on one denom: add (user or governance,
-    in any status governance may choose), add-finalize-activate, finalize, activate, mint, burn,
-    withdraw, cancel, delete, transfer, access grant/revoke, the governance supply-increase,
-    supply-decrease, change-status, withdraw-escrow, set/remove-administrator handlers, plain bank
-    sends of the denom and block boundaries (the marker begin-blocker) — by any callers, with any
-    amounts, accepted or rejected.  Supply changes made by modules outside the model (IBC voucher
-    mint/burn, wasm burns, other modules minting the denom) are NOT steps of a history; neither is
-    a change of the module parameters in mid-history.  [Inv s] asks of the starting state only what
-    the bank guarantees (no negative balance, supply = sum of balances) and that an already active
-    fixed-supply marker starts out exact; every state without a marker satisfies the last part. *)
-From Coq Require Import ZArith NArith List.
-From PV Require Import Marker.Lifecycle Proofs.LifecycleProofs Proofs.LifecycleProofs2.
+    Scope.  A world [W] has finitely many denoms, each with a marker record or none, its balances
+    and its bank supply ([cells W d]), one set of module parameters and one authz grant store.  A
+    history is any list of [mop]: every operation of Lifecycle.v aimed at any of the denoms (add by
+    a user or by governance in any status, add-finalize-activate, finalize, activate, mint, burn,
+    withdraw, cancel, delete, access grant/revoke, the governance supply-increase, supply-decrease,
+    change-status, withdraw-escrow, set/remove-administrator handlers, plain bank sends), marker
+    transfers (by the holder of TRANSFER, forced, or under an authz grant), withdrawals of OTHER
+    denoms' coins lying in a marker's account (by its administrators or by governance), authz
+    grant/revoke, changes of the module parameters (MaxSupply, EnableGovernance) and block
+    boundaries (the marker begin-blocker over every marker) — by any callers, with any amounts,
+    accepted or rejected.  Marker accounts may hold coins of other markers.  Supply changes made by
+    modules outside the model (IBC voucher mint/burn, wasm, other modules minting a denom) are NOT
+    steps of a history.  [WInv W] asks of the starting world only what the bank guarantees for
+    every denom (no negative balance, supply = sum of balances) and that an already active
+    fixed-supply marker starts out exact; a world without markers satisfies the last part. *)
+From Coq Require Import ZArith NArith List Bool.
+From PV Require Import Marker.Lifecycle Marker.MultiLifecycle
+     Proofs.LifecycleProofs Proofs.LifecycleProofs2 Proofs.LifecycleProofs3
+     Proofs.MultiLifecycleProofs Proofs.MultiLifecycleProofs2 Corr.C05 Proofs.C05CheckerProofs.
 Import ListNotations.
 Open Scope Z_scope.
 
-(** After EVERY operation of every history (not only after the next block's correction): an
+(** After EVERY operation of every history (not only after the next block's correction): every
     active marker with a fixed supply records exactly the bank's total supply of its denom. *)
-Theorem C05_fixed_supply_exact : forall ops s m,
-  Inv s ->
-  mk (run s ops) = Some m -> st m = Active -> fixed m = true ->
-  supply (run s ops) = msupply m.
-Proof. exact run_fixed_exact. Qed.
+Theorem C05_fixed_supply_exact : forall ops W d m,
+  WInv W -> let W1 := mrun W ops in
+  c_mk (cells W1 d) = Some m -> st m = Active -> fixed m = true ->
+  c_supply (cells W1 d) = msupply m.
+Proof. exact m_fixed_exact. Qed.
 Print Assumptions C05_fixed_supply_exact.
 
-(** The same from any state in which the denom has no marker yet (pre-existing coins allowed). *)
-Theorem C05_fixed_supply_exact_from_start : forall ops s m,
-  mk s = None -> BankInv s ->
-  mk (run s ops) = Some m -> st m = Active -> fixed m = true ->
-  supply (run s ops) = msupply m.
-Proof. exact run_fixed_exact_from_start. Qed.
-Print Assumptions C05_fixed_supply_exact_from_start.
-
-(** Hence the begin-blocker's supply repair never has anything to do on a reachable state: it
-    succeeds and leaves supply and balances as they are. *)
-Theorem C05_begin_block_repair_is_noop : forall ops s,
-  Inv s -> let s1 := run s ops in
-  snd (step s1 OBeginBlock) = true /\
-  supply (fst (step s1 OBeginBlock)) = supply s1 /\ bal (fst (step s1 OBeginBlock)) = bal s1.
-Proof. exact begin_block_noop. Qed.
+(** Hence the begin-blocker's supply repair never has anything to do on a reachable world: it
+    succeeds and leaves the supply and the balances of every denom as they are ... *)
+Theorem C05_begin_block_repair_is_noop : forall ops W,
+  WInv W -> let W1 := mrun W ops in
+  snd (mstep W1 MBeginBlock) = true /\
+  forall d, c_supply (cells (fst (mstep W1 MBeginBlock)) d) = c_supply (cells W1 d) /\
+            c_bal (cells (fst (mstep W1 MBeginBlock)) d) = c_bal (cells W1 d).
+Proof. exact m_begin_block_noop. Qed.
 Print Assumptions C05_begin_block_repair_is_noop.
 
-(** The bank's total supply of the denom is the sum of all balances, none of them negative. *)
-Theorem C05_supply_is_sum_of_balances : forall ops s,
-  Inv s -> supply (run s ops) = total (bal (run s ops)) /\ NonNeg (bal (run s ops)).
-Proof. exact run_sum. Qed.
+(** ... and the only thing it does to marker records is to remove the destroyed ones. *)
+Theorem C05_begin_block_only_removes_destroyed : forall W d,
+  let W' := fst (mstep W MBeginBlock) in
+  c_mk (cells W' d) = c_mk (cells W d) \/
+  (exists m, c_mk (cells W d) = Some m /\ st m = Destroyed /\ c_mk (cells W' d) = None).
+Proof. exact m_begin_block_marker. Qed.
+Print Assumptions C05_begin_block_only_removes_destroyed.
+
+(** For every denom the bank's total supply is the sum of all balances, none of them negative. *)
+Theorem C05_supply_is_sum_of_balances : forall ops W d,
+  WInv W -> let W1 := mrun W ops in
+  c_supply (cells W1 d) = total (c_bal (cells W1 d)) /\ NonNeg (c_bal (cells W1 d)).
+Proof. exact m_sum. Qed.
 Print Assumptions C05_supply_is_sum_of_balances.
 
 (** A successful mint (MsgMintRequest or the governance supply increase) into an ACTIVE marker, at
-    any point of any history, adds exactly the amount and never takes the total past the maximum. *)
-Theorem C05_mint_le_max : forall ops s o amt m s',
-  let s1 := run s ops in
-  mint_amount o = Some amt -> mk s1 = Some m -> st m = Active -> step s1 o = (s', true) ->
-  supply s' = supply s1 + amt /\ supply s' <= maxsupply s1.
-Proof. exact run_mint_le_max. Qed.
+    any point of any history, adds exactly the amount and never takes the total past the maximum
+    in force at that moment. *)
+Theorem C05_mint_le_max : forall ops W o d amt m W',
+  let W1 := mrun W ops in
+  mmint_amount o = Some (d, amt) -> c_mk (cells W1 d) = Some m -> st m = Active -> mstep W1 o = (W', true) ->
+  c_supply (cells W' d) = c_supply (cells W1 d) + amt /\ c_supply (cells W' d) <= w_max W1.
+Proof. exact m_mint_le_max. Qed.
 Print Assumptions C05_mint_le_max.
 
-(** Whatever operation makes the supply go down (burn, governance decrease, delete, the
-    governance status changes, the begin-blocker), exactly that amount leaves the marker's own
-    account and no other balance changes. *)
-Theorem C05_burn_only_escrow : forall ops s o,
-  let s1 := run s ops in let s' := fst (step s1 o) in
-  supply s' < supply s1 ->
-  get (bal s') ESCROW = get (bal s1) ESCROW - (supply s1 - supply s') /\
-  (forall a, a <> ESCROW -> get (bal s') a = get (bal s1) a).
-Proof. exact run_burn_only_escrow. Qed.
+(** MaxSupply is read by IncreaseSupply only.  What IS guaranteed at activation (by the manager,
+    by add-finalize-activate, or by governance add / change-status): the bank supply equals the
+    recorded supply - whatever MaxSupply says (see [C05_max_not_enforced_at_activation]) ... *)
+Theorem C05_activation_sets_recorded_supply : forall ops W o d m' W',
+  let W1 := mrun W ops in
+  mstep W1 o = (W', true) -> not_active (view W1 d) ->
+  c_mk (cells W' d) = Some m' -> st m' = Active -> c_supply (cells W' d) = msupply m'.
+Proof. exact m_activation. Qed.
+Print Assumptions C05_activation_sets_recorded_supply.
+
+(** ... and between any two points of one lifetime at which the marker is active, the supply stays
+    within the larger of: the supply and the recorded supply at the first point, and the largest
+    MaxSupply in force in between (parameter changes are steps of the history) ... *)
+Theorem C05_active_supply_bound : forall W pre post d m1 m2,
+  let W1 := mrun W pre in let W2 := mrun W1 post in
+  c_mk (cells W1 d) = Some m1 -> st m1 = Active -> c_mk (cells W2 d) = Some m2 -> st m2 = Active ->
+  c_gen (cells W1 d) = c_gen (cells W2 d) ->
+  c_supply (cells W2 d) <= Z.max (Z.max (c_supply (cells W1 d)) (msupply m1)) (wmax_param W1 post).
+Proof. exact m_active_supply_bound. Qed.
+Print Assumptions C05_active_supply_bound.
+
+(** ... so that, counted from the activating step: supply <= max(supply at activation, largest
+    MaxSupply in force since) for every active marker after any history. *)
+Theorem C05_supply_le_max_since_activation : forall W pre o post d m2,
+  let W0 := mrun W pre in let W1 := fst (mstep W0 o) in let W2 := mrun W1 post in
+  not_active (view W0 d) -> (exists m1, c_mk (cells W1 d) = Some m1 /\ st m1 = Active) ->
+  c_mk (cells W2 d) = Some m2 -> st m2 = Active -> c_gen (cells W1 d) = c_gen (cells W2 d) ->
+  c_supply (cells W2 d) <= Z.max (c_supply (cells W1 d)) (wmax_param W1 post).
+Proof. exact m_bound_since_activation. Qed.
+Print Assumptions C05_supply_le_max_since_activation.
+
+(** Without parameter changes in between, that last term is the one MaxSupply. *)
+Theorem C05_max_param_without_changes : forall ops W,
+  forallb (fun o => negb (is_mset_params o)) ops = true -> wmax_param W ops = w_max W.
+Proof. exact wmax_param_const. Qed.
+Print Assumptions C05_max_param_without_changes.
+
+(** Whatever operation makes the supply of a denom go down (burn, governance decrease, delete, the
+    governance status changes, the begin-blocker), exactly that amount leaves that denom's marker
+    account and no other balance of the denom changes. *)
+Theorem C05_burn_only_escrow : forall ops W o d,
+  let W1 := mrun W ops in let W' := fst (mstep W1 o) in
+  c_supply (cells W' d) < c_supply (cells W1 d) ->
+  get (c_bal (cells W' d)) (escrow d) =
+    get (c_bal (cells W1 d)) (escrow d) - (c_supply (cells W1 d) - c_supply (cells W' d)) /\
+  (forall a, a <> escrow d -> get (c_bal (cells W' d)) a = get (c_bal (cells W1 d)) a).
+Proof. exact m_burn_only_escrow. Qed.
 Print Assumptions C05_burn_only_escrow.
 
-(** Within one lifetime of a marker ([gen] counts the markers of the denom removed so far) the
+(** Within one lifetime of a marker ([c_gen] counts the markers of the denom removed so far) the
     status never moves backwards through proposed < finalized < active < cancelled < destroyed,
     between any two points of any history ... *)
-Theorem C05_status_monotone : forall s pre post m1 m2,
-  let s1 := run s pre in let s2 := run s1 post in
-  gen s1 = gen s2 -> mk s1 = Some m1 -> mk s2 = Some m2 ->
+Theorem C05_status_monotone : forall W pre post d m1 m2,
+  let W1 := mrun W pre in let W2 := mrun W1 post in
+  c_gen (cells W1 d) = c_gen (cells W2 d) -> c_mk (cells W1 d) = Some m1 -> c_mk (cells W2 d) = Some m2 ->
   rank (st m1) <= rank (st m2).
-Proof. exact run_status_monotone. Qed.
+Proof. exact m_status_monotone. Qed.
 Print Assumptions C05_status_monotone.
 
 (** ... and a lifetime ends only at a block boundary, and only for a destroyed marker. *)
-Theorem C05_removed_only_when_destroyed : forall ops s o m,
-  let s1 := run s ops in
-  mk s1 = Some m -> mk (fst (step s1 o)) = None -> st m = Destroyed /\ o = OBeginBlock.
-Proof. exact removed_only_destroyed. Qed.
+Theorem C05_removed_only_when_destroyed : forall ops W o d m,
+  let W1 := mrun W ops in
+  c_mk (cells W1 d) = Some m -> c_mk (cells (fst (mstep W1 o)) d) = None -> st m = Destroyed /\ o = MBeginBlock.
+Proof. exact m_removed_only_destroyed. Qed.
 Print Assumptions C05_removed_only_when_destroyed.
 
 (** A marker becomes destroyed (by MsgDeleteRequest or by the governance status change), or is
-    cancelled by an administrator's MsgCancelRequest once finalized or active, only in a state
-    where no coin of its denom is held outside its own account; a destroyed marker has no supply.
-    (A governance ChangeStatus to Cancelled is NOT covered: the handler has no such check — see
-    [C05_governance_cancel_skips_recall] below; the property text exempts it by saying "by its
-    administrators".) *)
-Theorem C05_destroy_cancel_requires_recall : forall ops s o m m',
-  Inv s -> let s1 := run s ops in let s' := fst (step s1 o) in
-  mk s1 = Some m -> mk s' = Some m' ->
+    cancelled by an administrator's MsgCancelRequest once finalized or active, only in a world
+    where no coin of its denom is held outside its own account - other markers' accounts
+    included; a destroyed marker has no supply.  (A governance ChangeStatus to Cancelled is NOT
+    covered: the handler has no such check — see [C05_governance_cancel_skips_recall]; the
+    property text exempts it by saying "by its administrators".) *)
+Theorem C05_destroy_cancel_requires_recall : forall ops W o d m m',
+  WInv W -> let W1 := mrun W ops in let W' := fst (mstep W1 o) in
+  c_mk (cells W1 d) = Some m -> c_mk (cells W' d) = Some m' ->
   (st m <> Destroyed /\ st m' = Destroyed) \/
-  ((exists c, o = OCancel c) /\ (st m = Finalized \/ st m = Active) /\ st m' = Cancelled) ->
-  (forall a, a <> ESCROW -> get (bal s1) a = 0) /\ (st m' = Destroyed -> supply s' = 0).
-Proof. exact run_recall. Qed.
+  ((exists c, o = MOn d (OCancel c)) /\ (st m = Finalized \/ st m = Active) /\ st m' = Cancelled) ->
+  (forall a, a <> escrow d -> get (c_bal (cells W1 d)) a = 0) /\
+  (st m' = Destroyed -> c_supply (cells W' d) = 0).
+Proof. exact m_recall. Qed.
 Print Assumptions C05_destroy_cancel_requires_recall.
 
-(** ** Non-vacuity and the edges of the statement *)
-Definition c05_start : state :=
-  {| mk := None; bal := [(3%N, 7)]; supply := 7; maxsupply := 1000; govparam := true; gen := 0%N |}.
+(** MsgDeleteRequest moreover succeeds only when the marker's account is left empty of EVERY
+    denom of the world (coins of other markers must have been withdrawn first). *)
+Theorem C05_delete_leaves_account_empty : forall W d c W',
+  mstep W (MOn d (ODelete c)) = (W', true) ->
+  forall e, In e (dom W) -> get (c_bal (cells W' e)) (escrow d) = 0.
+Proof. exact m_delete_empty. Qed.
+Print Assumptions C05_delete_leaves_account_empty.
 
-(** A fixed-supply restricted marker is created active over 7 pre-existing coins, coins are
-    withdrawn, minted, burned; cancelling is refused while coins are out and accepted after they
-    came back (forced transfers by the administrator); delete, then the block boundary removes the
-    record. *)
-Definition c05_life : list op :=
-  [OAddFinAct 100 true false Restricted true (Some 1%N) [(1%N, 255%N)];
-   OWithdraw 1%N 2%N 40; OMint 1%N 10; OBurn 1%N 5].
-Definition c05_recall : list op := [OTransfer 1%N 3%N 0%N 7; OTransfer 1%N 2%N 0%N 40].
+(** Frame: an operation on one marker / on coins of one denom leaves every OTHER denom's marker
+    record (status, recorded supply, access ...), bank supply, balances and lifetime counter
+    exactly as they were; grant-store operations and parameter changes leave every denom's cell
+    untouched ([touched] is [None] for them).  Block boundaries: see
+    [C05_begin_block_repair_is_noop] and [C05_begin_block_only_removes_destroyed]. *)
+Theorem C05_frame : forall W o d,
+  o <> MBeginBlock -> touched o <> Some d -> cells (fst (mstep W o)) d = cells W d.
+Proof. exact m_frame. Qed.
+Print Assumptions C05_frame.
+
+(** Every history of the world is, seen from one denom, a history of Lifecycle.v (so the
+    single-denom theorems of Proofs/LifecycleProofs*.v apply to each denom of the world). *)
+Theorem C05_projection : forall ops W d, view (mrun W ops) d = run (view W d) (proj_hist W ops d).
+Proof. exact mrun_view. Qed.
+Print Assumptions C05_projection.
+
+(** The executable property checker that Corr/C05.v evaluates on the REAL code's observations
+    (every [prop:] clause: fixed supply exact, supply = sum over all holders, status order, mint
+    within the maximum, burns out of the marker account only, recall before destroy/cancel,
+    rejected operations change nothing, other denoms untouched) raises no tag when it is evaluated
+    on the model's own observations of any step after any history: a [prop:] failure on the
+    implementation is a behaviour the model - about which the theorems above speak - cannot show. *)
+Theorem C05_checker_holds_on_model : forall denoms ops W o,
+  WInv W -> let W1 := mrun W ops in
+  prop_step denoms (obs_of denoms W1 true) o (obs_of denoms (fst (mstep W1 o)) (snd (mstep W1 o))) = [].
+Proof. exact checker_holds_on_model. Qed.
+Print Assumptions C05_checker_holds_on_model.
+
+(** ** Non-vacuity and the edges of the statement *)
+Definition empty_cell : cell := {| c_mk := None; c_bal := []; c_supply := 0; c_gen := 0%N |}.
+Definition c05_start : world :=
+  {| dom := [0%N; 1%N];
+     cells := fun d => if N.eqb d 0 then {| c_mk := None; c_bal := [(3%N, 7)]; c_supply := 7; c_gen := 0%N |}
+                       else empty_cell;
+     w_max := 1000; w_gov := true; grants := [] |}.
+
+(** Two markers.  Denom 0: a fixed-supply restricted marker created active over 7 pre-existing
+    coins; coins are withdrawn, minted, burned.  Denom 1: a floating coin marker whose coins are
+    withdrawn INTO marker 0's account (user 1 has deposit there).  MaxSupply is lowered to 50 in
+    mid-history: further mints fail, nothing else changes.  User 2 lets user 1 move 30 of its
+    coins by an authz grant (useless until user 4 holds TRANSFER and DEPOSIT); the grant
+    is used up and deleted.  Cancelling marker 0 is refused while coins are out and accepted after
+    they came back; deleting is refused while marker 1's coins lie in the account (its
+    administrator can no longer withdraw them: not active), accepted after governance withdrew
+    them; the block boundary then removes the record - and marker 1 never notices any of it. *)
+Definition c05_life : list mop :=
+  [MOn 0%N (OAddFinAct 100 true false Restricted true (Some 1%N) [(1%N, 255%N)]);
+   MOn 1%N (OAddFinAct 500 false true Coin false (Some 1%N) [(1%N, 63%N)]);
+   MOn 0%N (OWithdraw 1%N 2%N 40); MOn 0%N (OMint 1%N 10); MOn 0%N (OBurn 1%N 5);
+   MOn 1%N (OWithdraw 1%N (escrow 0%N) 25);
+   MSetParams GOV 50 true].
+Definition c05_recall : list mop :=
+  [MAuthzGrant 2%N 4%N [(0%N, 30)] [];
+   MTransfer 0%N 4%N 2%N (escrow 0%N) 30;
+   MOn 0%N (OGovSetAdmin GOV 4%N 68%N)].
+Definition c05_recall2 : list mop :=
+  [MTransfer 0%N 4%N 2%N (escrow 0%N) 30;
+   MTransfer 0%N 1%N 2%N (escrow 0%N) 10; MTransfer 0%N 1%N 3%N (escrow 0%N) 7].
 
 Example C05_witness :
-  let s1 := run c05_start c05_life in
-  Inv c05_start /\
-  (exists m, mk s1 = Some m /\ st m = Active /\ fixed m = true /\ msupply m = 105) /\
-  supply s1 = 105 /\ get (bal s1) ESCROW = 58 /\ get (bal s1) 2%N = 40 /\ get (bal s1) 3%N = 7 /\
-  snd (step s1 (OCancel 1%N)) = false /\
-  snd (step s1 (OMint 1%N 896)) = false /\ snd (step s1 (OMint 1%N 895)) = true /\
-  snd (step s1 (OGovChangeStatus GOV Finalized)) = false /\
-  let s2 := run s1 c05_recall in
-  snd (step s2 (OCancel 1%N)) = true /\
-  let s3 := run s2 [OCancel 1%N; ODelete 1%N] in
-  (exists m, mk s3 = Some m /\ st m = Destroyed /\ msupply m = 0) /\ supply s3 = 0 /\
-  let s4 := run s3 [OBeginBlock] in mk s4 = None /\ gen s4 = 1%N.
+  let W1 := mrun c05_start c05_life in
+  WInv c05_start /\
+  (exists m, c_mk (cells W1 0%N) = Some m /\ st m = Active /\ fixed m = true /\ msupply m = 105) /\
+  c_supply (cells W1 0%N) = 105 /\ get (c_bal (cells W1 0%N)) (escrow 0%N) = 58 /\
+  get (c_bal (cells W1 0%N)) 2%N = 40 /\ get (c_bal (cells W1 0%N)) 3%N = 7 /\
+  c_supply (cells W1 1%N) = 500 /\ get (c_bal (cells W1 1%N)) (escrow 0%N) = 25 /\
+  w_max W1 = 50 /\
+  snd (mstep W1 (MOn 0%N (OMint 1%N 1))) = false /\ snd (mstep W1 (MOn 0%N (OBurn 1%N 1))) = true /\
+  snd (mstep W1 (MOn 0%N (OCancel 1%N))) = false /\
+  snd (mstep W1 (MOn 0%N (OGovChangeStatus GOV Finalized))) = false /\
+  snd (mstep W1 (MTransfer 0%N 4%N 2%N (escrow 0%N) 30)) = false /\
+  let W2 := mrun W1 c05_recall in
+  (* the grant does not help a grantee without TRANSFER on the marker ... *)
+  get (c_bal (cells W2 0%N)) 2%N = 40 /\ length (grants W2) = 1%nat /\
+  let W3 := mrun W2 c05_recall2 in
+  (* ... with it the grant is consumed and deleted *)
+  grants W3 = [] /\ get (c_bal (cells W3 0%N)) (escrow 0%N) = 105 /\
+  snd (mstep W3 (MOn 0%N (OCancel 1%N))) = true /\
+  let W4 := mrun W3 [MOn 0%N (OCancel 1%N)] in
+  snd (mstep W4 (MOn 0%N (ODelete 1%N))) = false /\
+  snd (mstep W4 (MWithdrawOther 0%N 1%N 4%N 1%N 25)) = false /\   (* no longer active *)
+  let W5 := mrun W4 [MGovWithdrawOther GOV 0%N 4%N 1%N 25; MOn 0%N (ODelete 1%N)] in
+  (exists m, c_mk (cells W5 0%N) = Some m /\ st m = Destroyed /\ msupply m = 0) /\ c_supply (cells W5 0%N) = 0 /\
+  let W6 := mrun W5 [MBeginBlock] in
+  c_mk (cells W6 0%N) = None /\ c_gen (cells W6 0%N) = 1%N /\
+  (exists m, c_mk (cells W6 1%N) = Some m /\ st m = Active) /\ c_supply (cells W6 1%N) = 500 /\
+  get (c_bal (cells W6 1%N)) 4%N = 25.
 Proof.
   cbv zeta. split.
-  - split; [split|].
-    + repeat constructor; cbn; discriminate.
-    + reflexivity.
-    + intros m Hm. discriminate Hm.
+  - intros d. unfold c05_start, view. cbn [cells w_max w_gov].
+    destruct (N.eqb d 0); (split; [split|]);
+      [ repeat constructor; cbn; discriminate | reflexivity | intros m Hm; discriminate Hm
+      | constructor | reflexivity | intros m Hm; discriminate Hm ].
   - vm_compute. repeat split; try reflexivity; eexists; repeat split; reflexivity.
 Qed.
 
 (** Edge 1: governance can cancel an active marker while coins are in circulation (not an
     administrator's cancel, so outside the property's last clause). *)
+Definition c05_empty : world :=
+  {| dom := [0%N; 1%N]; cells := fun _ => empty_cell; w_max := 1000; w_gov := true; grants := [] |}.
+
 Example C05_governance_cancel_skips_recall :
-  let s0 := {| mk := None; bal := []; supply := 0; maxsupply := 1000; govparam := true; gen := 0%N |} in
-  let s1 := run s0 [OAddFinAct 100 true true Coin false (Some 1%N) [(1%N, 63%N)]; OWithdraw 1%N 2%N 40] in
-  snd (step s1 (OCancel 1%N)) = false /\
-  let s2 := fst (step s1 (OGovChangeStatus GOV Cancelled)) in
-  (exists m, mk s2 = Some m /\ st m = Cancelled) /\ get (bal s2) 2%N = 40.
+  let W1 := mrun c05_empty [MOn 0%N (OAddFinAct 100 true true Coin false (Some 1%N) [(1%N, 63%N)]);
+                            MOn 0%N (OWithdraw 1%N 2%N 40)] in
+  snd (mstep W1 (MOn 0%N (OCancel 1%N))) = false /\
+  let W2 := fst (mstep W1 (MOn 0%N (OGovChangeStatus GOV Cancelled))) in
+  (exists m, c_mk (cells W2 0%N) = Some m /\ st m = Cancelled) /\ get (c_bal (cells W2 0%N)) 2%N = 40.
 Proof. vm_compute. repeat split; try reflexivity. eexists; split; reflexivity. Qed.
 
 (** Edge 2: the maximum supply is enforced only on mints into an ACTIVE marker; a proposed marker
-    may be configured (or minted) past it and then activated. *)
+    may be configured (or minted) past it and then activated ([C05_activation_sets_recorded_supply]
+    and [C05_supply_le_max_since_activation] say what holds instead). *)
 Example C05_max_not_enforced_at_activation :
-  let s0 := {| mk := None; bal := []; supply := 0; maxsupply := 1000; govparam := true; gen := 0%N |} in
-  let s1 := run s0 [OAdd 1%N Proposed 900 true false Coin false (Some 1%N) [(1%N, 63%N)];
-                    OMint 1%N 600; OFinalize 1%N; OActivate 1%N] in
-  supply s1 = 1500 /\ maxsupply s1 = 1000.
+  let W1 := mrun c05_empty [MOn 0%N (OAdd 1%N Proposed 900 true false Coin false (Some 1%N) [(1%N, 63%N)]);
+                            MOn 0%N (OMint 1%N 600); MOn 0%N (OFinalize 1%N); MOn 0%N (OActivate 1%N)] in
+  c_supply (cells W1 0%N) = 1500 /\ w_max W1 = 1000.
 Proof. vm_compute. split; reflexivity. Qed.
+
+(** Edge 3: lowering MaxSupply below the supply of an active marker changes nothing but the
+    outcome of later mints; a floating-supply active marker whose supply was burned down can be
+    brought back up to its RECORDED supply by a governance change-status to Active, past the new
+    maximum (the [msupply m1] term of [C05_active_supply_bound] is needed). *)
+Example C05_reactivation_ignores_max :
+  let W1 := mrun c05_empty [MOn 0%N (OAddFinAct 800 false true Coin false (Some 1%N) [(1%N, 63%N)]);
+                            MOn 0%N (OBurn 1%N 700); MSetParams GOV 200 true] in
+  c_supply (cells W1 0%N) = 100 /\ w_max W1 = 200 /\
+  snd (mstep W1 (MOn 0%N (OMint 1%N 101))) = false /\
+  let W2 := fst (mstep W1 (MOn 0%N (OGovChangeStatus GOV Active))) in
+  c_supply (cells W2 0%N) = 800.
+Proof. vm_compute. repeat split; reflexivity. Qed.
